@@ -79,12 +79,9 @@ JOBS += [
     ej('fill_def_levels', loops=2),
     ej('prefix_sum_i32', loops=2, checks=NO_OVF), ej('prefix_sum_i64', loops=2, checks=NO_OVF),
     ej('gather_i32', loops=3), ej('gather_i64', loops=2), ej('gather_float', loops=3), ej('gather_double', loops=2),
-    # byte-stream split float: one job per ghost stream number b (the four together cover every output byte);
-    # 4-byte memcpy calls only: exact byte-wise memcpy model of width 4
-] + [ej('byte_stream_split_%s_float' % dirn, loops=2, name='c15_sse_byte_stream_split_%s_float_b%d' % (dirn, b),
-        defines=['__SSE4_2__=1', 'CQV_MEMCPY_EXACT=4', 'CQV_FIX_B=%d' % b],
-        unwindset=[u for u in UNW_IA32 if u != 'memcpy.0:17'] + ['memcpy.0:5'] + UNW_SSE)
-     for dirn in ('encode', 'decode') for b in range(4)] + [
+    # unbounded contracts for BSS float do not close (cbmc > 300 s, also per stream / cadical); bounded jobs below
+    ej('byte_stream_split_encode_float', loops=2, note='UNDECIDED unbounded: timeout; see ..._bounded'),
+    ej('byte_stream_split_decode_float', loops=2, note='UNDECIDED unbounded: timeout; see ..._bounded'),
     ej('byte_stream_split_encode_double', loops=2), ej('byte_stream_split_decode_double', loops=1),
     ej('unpack_bools', loops=2),   # full count domain (591c517)
     # domain of the SSE kernel is documented as bytes 0/1 ("Input bytes should be 0 or 1"); the claim is made element by
@@ -115,6 +112,15 @@ JOBS += [bj('memset_small', [4, 5, 17], 'n 0..130, any alignment offset fixed at
          bj('memcpy_small', [4, 5, 17], 'n 0..130, all contents'),
          bj('match_length', [5, 17], 'limit - p <= 48, buffer <= 64 bytes, match before p in the same buffer (LZ), all contents')]
 JOBS[-1]['backend'] = ['cadical', 'sat']
+for dirn in ('encode', 'decode'):
+    JOBS.append(dict(name='c15_sse_byte_stream_split_%s_float_bounded' % dirn, entry='h_sse_bss_%s_float_bounded' % dirn, prop='C15',
+                     harness='harness/C15/sse.c', overlays=[], loop_contracts=False, defines=['__SSE4_2__=1', 'CQV_MEMCPY_EXACT=4'],
+                     extra_sources=E['extra_sources'], trusted=E['trusted'],
+                     unwindset=['carquet_sse_byte_stream_split_%s_float.0:13' % dirn, 'carquet_sse_byte_stream_split_%s_float.1:5' % dirn,
+                                'carquet_sse_byte_stream_split_%s_float.2:5' % dirn, 'memcpy.0:5', '__builtin_ia32_pshufb128.0:17',
+                                '__builtin_ia32_punpcklbw128.0:9', '__builtin_ia32_punpcklwd128.0:5'],
+                     functions=['carquet_sse_byte_stream_split_%s_float' % dirn], level='bounded',
+                     bound='count 0..47, all data, every stream and position', wip=True, timeout=600))
 def lemma(fn, **kw):
     d = dict(name='c15_sse_' + fn, entry='h_sse_' + fn, loop_contracts=False, unwind=66, functions=['carquet_sse_' + fn], wip=True)
     d.update(E); d['overlays'] = []; d.update(kw)
